@@ -1,0 +1,40 @@
+use crate::set::node::Color;
+use crate::set::pool::Pool;
+use crate::set::tree::SetTree;
+use crate::verif::{VerifSlot, VerifSnapshot};
+
+impl<K, V: Clone> SetTree<K, V> {
+    /// Read-only view of the arena; `f` maps a stored value to what the caller wants to keep.
+    pub fn verif_snapshot<T, F: Fn(&V) -> T>(&self, f: F) -> VerifSnapshot<T> {
+        VerifSnapshot {
+            root: self.root,
+            slots: self
+                .store
+                .buffer
+                .iter()
+                .map(|n| VerifSlot {
+                    parent: n.parent,
+                    left: n.left,
+                    right: n.right,
+                    red: n.color == Color::Red,
+                    payload: f(&n.value),
+                })
+                .collect(),
+            free: self.store.unused.clone(),
+            free_capacity: self.store.unused.capacity(),
+        }
+    }
+
+}
+
+impl<K, V: Clone + Default> SetTree<K, V> {
+    /// Field-for-field copy. The free list keeps its capacity, which the pool uses as growth step.
+    pub fn verif_clone(&self) -> Self {
+        let mut unused = Vec::with_capacity(self.store.unused.capacity());
+        unused.extend_from_slice(&self.store.unused);
+        let mut copy = Self::new(0);
+        copy.store = Pool { buffer: self.store.buffer.clone(), unused };
+        copy.root = self.root;
+        copy
+    }
+}
